@@ -1874,12 +1874,14 @@ class GramStack(Stack):
         if self.handler.opened:
             laters = deque()
             blockeds = []
-            while self.txPkts:
-                again = self._serviceOneTxPkt(laters, blockeds)
-                if not again:
-                    break
-            while laters:
-                self.txPkts.append(laters.popleft())
+            try:
+                while self.txPkts:
+                    again = self._serviceOneTxPkt(laters, blockeds)
+                    if not again:
+                        break
+            finally:  # also when a send raises: deferred packets go back in front of the rest
+                while laters:
+                    self.txPkts.appendleft(laters.pop())
 
     def serviceTxPktsOnce(self):
         '''
